@@ -98,7 +98,9 @@ func (p *peer) disableFSM(i int) {
 		return
 	}
 	p.logTransition(i, p.fsmState[i], disabledState)
+	verifEvent("m.disable", p, i, p.fsmState[i])
 	p.fsms[i].stop()
+	verifPoint("disable.afterstop")
 	p.fsms[i] = nil
 	p.fsmState[i] = disabledState
 }
@@ -108,6 +110,7 @@ func (p *peer) sendTransitionToFSM(i int, t stateTransition) {
 	case <-p.closeCh:
 		return
 	case p.transitionCh[i] <- t:
+		verifEvent("m.reply", p, i, t.from, t.to)
 		p.logTransition(i, t.from, t.to)
 		p.fsmState[i] = t.to
 	}
@@ -119,6 +122,7 @@ func (p *peer) enableFSM(i int, conn net.Conn) {
 	}
 	if p.fsms[i] == nil {
 		p.fsms[i] = newFSM(p, conn)
+		verifEvent("m.enable", p, i, conn != nil)
 		p.fsmState[i] = disabledState
 		p.fsms[i].start()
 	}
@@ -160,16 +164,20 @@ func (p *peer) handleStateTransition(i int, t stateTransition) {
 			dominant := localID > remoteID ||
 				(localID == remoteID) && (p.config.LocalAS > p.config.RemoteAS)
 			if dominant && i == out {
+				verifEvent("m.collide.begin", p, i)
+				verifPoint("collide.select")
 				// attempt to disable other FSM
 				select {
 				case <-p.closeCh:
 					return
 				case p.fsms[other(i)].closeCh <- struct{}{}:
+					verifEvent("m.collide.stopped", p, other(i))
 					// we send an empty struct rather than close the channel in
 					// case we lose on the select race in fsm.openConfirm()
 					p.disableFSM(other(i)) // wait for it to stop completely
 					p.sendTransitionToFSM(i, t)
 				case otherT := <-p.transitionCh[other(i)]:
+					verifEvent("m.collide.other", p, other(i), otherT.from, otherT.to)
 					// other FSM transitioned before we could disable it
 					if otherT.to == establishedState {
 						// other FSM entered established state before we could
@@ -206,6 +214,7 @@ func direction(i int) string {
 
 // handleError handles an error during fsm operation
 func (p *peer) handleError(i int, err error) {
+	verifEvent("m.err", p, i, p.fsmState[i], err)
 	logf("[%s] FSM-%s %s error: %v",
 		p.config.RemoteAddress, direction(i), p.fsmState[i], err)
 	var nerr *notificationError
@@ -241,6 +250,7 @@ func (p *peer) updateStartupDelay() {
 	p.startupDelayTimer.Stop()
 	p.startupDelayTimer = time.NewTimer(p.startupDelay)
 	logf("[%s] damping peer for %s", p.config.RemoteAddress, p.startupDelay)
+	verifEvent("m.damp", p, int64(p.startupDelay))
 }
 
 // main run loop
@@ -249,14 +259,17 @@ func (p *peer) run() {
 		p.disableFSM(out)
 		p.disableFSM(in)
 		p.startupDelayTimer.Stop()
+		verifEvent("m.done", p)
 		close(p.doneCh)
 	}()
 
 	for {
 		select {
 		case <-p.closeCh:
+			verifEvent("m.close", p)
 			return
 		case <-p.startupDelayTimer.C:
+			verifEvent("m.timer", p)
 			logf("[%s] startup delay timer expired, enabling peer",
 				p.config.RemoteAddress)
 			p.enableFSM(out, nil)
@@ -266,10 +279,13 @@ func (p *peer) run() {
 		case err := <-p.errorCh[out]:
 			p.handleError(out, err)
 		case t := <-p.transitionCh[in]:
+			verifEvent("m.trans", p, in, t.from, t.to)
 			p.handleStateTransition(in, t)
 		case t := <-p.transitionCh[out]:
+			verifEvent("m.trans", p, out, t.from, t.to)
 			p.handleStateTransition(out, t)
 		case conn := <-p.inConnCh:
+			verifEvent("m.conn", p, p.inHoldDown, p.fsms[in] != nil, p.fsmState[out])
 			if p.inHoldDown {
 				conn.Close()
 				continue
